@@ -15,10 +15,11 @@ CONSTANTS MaxN,        \* list lengths range over 1..MaxN
           Perturb,     \* TRUE: also all single-fault perturbations
           Generate,    \* TRUE: run DrawList / FinishFile over all draws (keep MaxN tiny)
           TypesUsed,   \* subset of Types
-          Rich         \* TRUE: richer optional-argument domains
+          Rich,        \* TRUE: richer optional-argument domains
+          Spells       \* subset of {"short", "long"}: which documented spelling of the options the caller uses
 
-VARIABLE pert
-mvars == <<gvars, pert>>
+VARIABLES pert, spell
+mvars == <<gvars, pert, spell>>
 
 Opt(SS) == {NoVal} \cup SS           \* NoVal = option not given
 MkArgs(mp, ni, vals) ==            \* vals: [name |-> value or NoVal]
@@ -124,8 +125,9 @@ MInit == /\ GInit
          /\ \E mp \in TypesUsed : \E ni \in NumInsts : \E vals \in Legal(mp) : \E pt \in Perts(mp) :
               /\ args = Apply(MkArgs(mp, ni, vals), pt)
               /\ pert = pt
+         /\ spell \in Spells
 MNext == /\ (ParseArgs \/ MkDir \/ (Generate /\ (DrawList \/ FinishFile)))
-         /\ UNCHANGED pert
+         /\ UNCHANGED <<pert, spell>>
 MSpec == MInit /\ [][MNext]_mvars
 
 (* the legal vectors really are legal, and every perturbation is a fault *)
@@ -133,5 +135,5 @@ FamilySound == /\ pert[1] = "none" => Accepts(args)
                /\ pert[1] # "none" => ~Accepts(args)
 ExportArgs == gphase \in {"accepted", "rejected"} =>
     PrintT("EXPORT " \o ToJson([mp |-> args.mp, numinst |-> args.numinst, given |-> args.g, v |-> args.v, eps |-> args.eps,
-                                pert |-> pert, accept |-> Accepts(args)]))
+                                pert |-> pert, accept |-> Accepts(args), spell |-> spell, names |-> GenOptNames(spell)]))
 =============================================================================
